@@ -5,7 +5,7 @@ import random
 
 
 def gen_spec(rng: random.Random, resources, depth=3, pool=None, allow_fail=True, allow_ctx=False,
-             allow_nocse=True, counter=None, limits=None, infeasible=0.0):
+             allow_nocse=True, counter=None, limits=None, infeasible=0.0, twins=True):
     pool = pool if pool is not None else []
     counter = counter if counter is not None else [0]
 
@@ -34,7 +34,7 @@ def gen_spec(rng: random.Random, resources, depth=3, pool=None, allow_fail=True,
         return o or None
 
     def leaf():
-        if pool and rng.random() < 0.45:
+        if twins and pool and rng.random() < 0.45:
             return rng.choice(pool)          # a twin of an earlier call
         counter[0] += 1
         if allow_ctx and rng.random() < 0.2:
@@ -61,7 +61,7 @@ def gen_spec(rng: random.Random, resources, depth=3, pool=None, allow_fail=True,
             s = (f"c{counter[0]}", "catch", 0, children[:1], opts())
         else:
             s = (f"s{counter[0]}", "seq", 0, children, opts())
-        if rng.random() < 0.3:
+        if twins and rng.random() < 0.3:
             pool.append(s)
         return s
 
